@@ -99,6 +99,8 @@ const (
 	Type_MeterMod = 29
 )
 
+var errUndecodedType = errors.New("Parse has no decoder for this OpenFlow message type.")
+
 func Parse(b []byte) (message util.Message, err error) {
 	// The decoders below index into b without checking its length first; a
 	// truncated or corrupted frame must come back as an error, not take the
@@ -163,16 +165,16 @@ func Parse(b []byte) (message util.Message, err error) {
 		message = new(PortStatus)
 		err = message.UnmarshalBinary(b)
 	case Type_PacketOut:
-		break
+		err = errUndecodedType
 	case Type_FlowMod:
 		message = NewFlowMod()
 		err = message.UnmarshalBinary(b)
 	case Type_GroupMod:
-		break
+		err = errUndecodedType
 	case Type_PortMod:
-		break
+		err = errUndecodedType
 	case Type_TableMod:
-		break
+		err = errUndecodedType
 	case Type_BarrierRequest:
 		message = new(common.Header)
 		err = message.UnmarshalBinary(b)
@@ -180,9 +182,9 @@ func Parse(b []byte) (message util.Message, err error) {
 		message = new(common.Header)
 		err = message.UnmarshalBinary(b)
 	case Type_QueueGetConfigRequest:
-		break
+		err = errUndecodedType
 	case Type_QueueGetConfigReply:
-		break
+		err = errUndecodedType
 	case Type_MultiPartRequest:
 		message = new(MultipartRequest)
 		err = message.UnmarshalBinary(b)
